@@ -13,17 +13,25 @@ def mk_bytes(ctx, name, n, full=6):
     return head + ctx.B(bytes([FILL]) * (n - 4)) + tail
 
 
+def _script(ctx, shape, name, n):
+    if shape.get('concrete_scripts'):
+        return ctx.B(bytes([0x51]) * n)
+    return mk_bytes(ctx, name, n)
+
+
 def mk_tx_fields(ctx, shape, pre='t'):
-    """shape: dict(sig=[len per input], spk=[len per output], wit=None | [[item lens] per input])"""
+    """shape: dict(sig=[len per input], spk=[len per output], wit=None | [[item lens] per input],
+    concrete_scripts=bool: scripts are fixed OP_1 filler (when script content is not the subject))"""
     f = dict(nVersion=ctx.int(pre + '_ver', -(1 << 31), (1 << 31) - 1),
              nLockTime=ctx.int(pre + '_lock', 0, 0xffffffff), vin=[], vout=[], wit=None)
     for i, sl in enumerate(shape['sig']):
         f['vin'].append(dict(hash=ctx.bytes('%s_i%d_hash' % (pre, i), 32), n=ctx.int('%s_i%d_n' % (pre, i), 0, 0xffffffff),
-                             scriptSig=mk_bytes(ctx, '%s_i%d_sig' % (pre, i), sl),
+                             scriptSig=_script(ctx, shape, '%s_i%d_sig' % (pre, i), sl),
                              nSequence=ctx.int('%s_i%d_seq' % (pre, i), 0, 0xffffffff)))
     for j, pl in enumerate(shape['spk']):
-        f['vout'].append(dict(nValue=ctx.int('%s_o%d_val' % (pre, j), -(1 << 63), (1 << 63) - 1),
-                              scriptPubKey=mk_bytes(ctx, '%s_o%d_spk' % (pre, j), pl)))
+        f['vout'].append(dict(nValue=ctx.int('%s_o%d_val' % (pre, j), 0, 1000) if shape.get('small_values') else
+                              ctx.int('%s_o%d_val' % (pre, j), -(1 << 63), (1 << 63) - 1),
+                              scriptPubKey=_script(ctx, shape, '%s_o%d_spk' % (pre, j), pl)))
     if shape.get('wit') is not None:
         f['wit'] = [[mk_bytes(ctx, '%s_w%d_%d' % (pre, i, k), ln) for k, ln in enumerate(st)]
                     for i, st in enumerate(shape['wit'])]
